@@ -21,6 +21,7 @@ mod parent;
 mod pgcat_api;
 mod pgsession;
 mod proto;
+mod refmodel;
 mod runner;
 mod sclient;
 mod spec;
